@@ -19,7 +19,8 @@ the log of the harness objective) for Powell, conjugate gradient and BFGS.  Here
   three that have one make exactly one call after the template's loop;
 * `nback_monotone`, `simplex_monotone` (every scalar type, every function object);
 * `newton1d_calls_exceed_cap`: the clause is **false** of `NewtonOneDimension` as modelled (known finding
-  C10-counter-undercount, kept on record): a run with `nbEvalMax = 3` whose last step begins after 7 calls.
+  C10-counter-undercount, kept on record): a run over `ℝ` with `nbEvalMax = 3` whose last step begins after
+  7 calls; `newton1d_calls_exceed_cap_rat`: the same run in exact `Rat` arithmetic, evaluated by the kernel.
 -/
 namespace Bpp.C10
 open Bpp Bpp.Optim
@@ -158,15 +159,38 @@ function at the Newton point and then, as long as the value is above the current
 previous point (`setParameters`: one call) and evaluates at half the movement (one call); none of these
 calls is counted — only the `for` loop of `optimize` increments `nbEval_`, once per step.
 
-The witness (`Bpp.Optim.Newton1dExample`, the same program text in exact `Rat` arithmetic): one free
+The witness (`Bpp.Optim.Newton1dReal`, over `ℝ`, on the objective of the harness without cap): one free
 parameter at `3/5`, the double well `(x² - 1)²` with its true derivatives, `nbEvalMax = 3`,
-`maxCorrection = 10`.  `init` returns `s` (one call).  `optimize` returns normally `(s', v)` with any fuel
-`≥ 2`, after exactly two steps: the first one, begun in the state `optimize` starts the loop with,
-ends in `s1`; the last one begins in `sb = bump s1` — the guard of the loop holds there, the counter shows
-`2 < 3` (`Spec.budget` is satisfied) — although the objective has been called **7 times** since `optimize`
-began (the Newton point `27/5` and three corrections `3`, `9/5`, `6/5`, each preceded by the restoration
-of `3/5`): `Spec.budgetCalls 3 7 = false`. -/
+`maxCorrection = 10`, tolerance 0.  `init` returns `s` (one call).  `optimize` returns normally `(s', v)`
+with any fuel `≥ 2`, after exactly two steps: the first one, begun in the state `optimize` starts the loop
+with, ends in `s1`; the last one begins in `sb = bump s1` — the guard of the loop holds there, the counter
+shows `2 < 3` (`Spec.budget` is satisfied) — although the objective has been called **7 times** since
+`optimize` began (the Newton point `27/5` and three corrections `3`, `9/5`, `6/5`, each preceded by the
+restoration of `3/5`): `Spec.budgetCalls 3 7 = false`.  The conclusion has the shape of the second
+alternative of `budget_calls` with the last conjunct negated (and the first alternative fails: `s'.fn` has
+a longer log than `s.fn`). -/
 theorem newton1d_calls_exceed_cap :
+    ∃ (s s' sb sa : St (Fn ℝ) (Newton1 ℝ) ℝ) (v w : ℝ),
+      Newton1dReal.algo.init Newton1dReal.start (oneP (3 / 5)) = .ok s ∧
+      s.core.nbEvalMax = 3 ∧
+      (∀ k, Newton1dReal.algo.optimize (k + 2) s = .ok (s', v)) ∧
+      Guard sb ∧ sb.core.nbEvalMax = s.core.nbEvalMax ∧ Newton1dReal.algo.step sb = .ok (sa, w) ∧ s' = bump sa ∧
+      (∃ s1 w1, Newton1dReal.algo.step { s with core := { s.core with tol := false, nbEval := 1 } } = .ok (s1, w1) ∧
+        sb = bump s1) ∧
+      sb.fn.log = [[6 / 5], [3 / 5], [9 / 5], [3 / 5], [3], [3 / 5], [27 / 5]] ++ s.fn.log ∧
+      sb.fn.log.length - s.fn.log.length = 7 ∧
+      Spec.budget s.core.nbEvalMax s'.core.nbEval (some sb.core.nbEval) = true ∧
+      Spec.budgetCalls s.core.nbEvalMax (sb.fn.log.length - s.fn.log.length) = false := by
+  obtain ⟨s, s1, sc, w1, w2, hinit, hmax, hlog0, h1, hg1, hnb1, hmax1, hlog1, h2, -, -, hopt⟩ := Newton1dReal.run
+  refine ⟨s, bump sc, bump s1, sc, (bump sc).core.cur, w2, hinit, hmax, hopt, hg1, by rw [hmax1, hmax], h2, rfl,
+    ⟨s1, w1, h1, rfl⟩, by rw [hlog1, hlog0]; rfl, by rw [hlog1, hlog0]; rfl, ?_, ?_⟩
+  · unfold Spec.budget
+    rw [hnb1, hmax]; rfl
+  · rw [hlog1, hlog0, hmax]; rfl
+
+/-- the same run in exact `Rat` arithmetic (`Bpp.Optim.Newton1dExample`: the same program text, evaluated by
+the kernel) -/
+theorem newton1d_calls_exceed_cap_rat :
     ∃ (s s' sb sa : St (Fn Rat) (Newton1 Rat) Rat) (v w : Rat),
       Newton1dExample.algo.init Newton1dExample.start Newton1dExample.params = .ok s ∧
       s.core.nbEvalMax = 3 ∧
